@@ -1,9 +1,84 @@
 import Driver.Util
+import Mtv.Crypto.Sha1
+import Mtv.Crypto.Sha256
+import Mtv.Crypto.Sha512
+import Mtv.Crypto.Hmac
+import Mtv.Crypto.Pbkdf2
+import Mtv.Crypto.Aes
+import Mtv.Crypto.Crc32
 namespace Driver.CRYPTO
-open Mtv Driver
+open Mtv Mtv.Crypto Driver
 
-/-- operations comparing the executable Lean primitives with Go's; not built yet -/
+/-- `n`-fold iteration `x ← f x` (used by the chained/benchmark operations) -/
+def iter (f : Bytes → Bytes) : Nat → Bytes → Bytes
+  | 0, x => x
+  | n + 1, x => iter f n (f x)
+
+/-- operations comparing the executable Lean primitives with Go's standard library -/
 def handle : List String → String
+  | ["crypto.sha1", m] =>
+    match parseBytes? m with
+    | some m => toHex (sha1 m)
+    | none => "bad-op"
+  | ["crypto.sha256", m] =>
+    match parseBytes? m with
+    | some m => toHex (sha256 m)
+    | none => "bad-op"
+  | ["crypto.sha512", m] =>
+    match parseBytes? m with
+    | some m => toHex (sha512 m)
+    | none => "bad-op"
+  | ["crypto.hmac512", k, m] =>
+    match parseBytes? k, parseBytes? m with
+    | some k, some m => toHex (hmacSha512 k m)
+    | _, _ => "bad-op"
+  | ["crypto.pbkdf2", pw, salt, it, dk] =>
+    match parseBytes? pw, parseBytes? salt, it.toNat?, dk.toNat? with
+    | some pw, some salt, some it, some dk => toHexD (pbkdf2HmacSha512 pw salt it dk)
+    | _, _, _, _ => "bad-op"
+  | ["crypto.aesenc", k, b] =>
+    match parseBytes? k, parseBytes? b with
+    | some k, some b =>
+      if k.length = 32 ∧ b.length = 16 then toHex (aes256EncryptBlock (aes256Expand k) b) else "bad-op"
+    | _, _ => "bad-op"
+  | ["crypto.aesdec", k, b] =>
+    match parseBytes? k, parseBytes? b with
+    | some k, some b =>
+      if k.length = 32 ∧ b.length = 16 then toHex (aes256DecryptBlock (aes256Expand k) b) else "bad-op"
+    | _, _ => "bad-op"
+  | ["crypto.crc32", m] =>
+    match parseBytes? m with
+    | some m => toString (crc32 m)
+    | none => "bad-op"
+  -- chained forms: x ← H(x) / x ← E_k(x), n times (many primitive calls per line; also the speed test)
+  | ["crypto.sha1chain", m, n] =>
+    match parseBytes? m, n.toNat? with
+    | some m, some n => toHexD (iter sha1 n m)
+    | _, _ => "bad-op"
+  | ["crypto.sha256chain", m, n] =>
+    match parseBytes? m, n.toNat? with
+    | some m, some n => toHexD (iter sha256 n m)
+    | _, _ => "bad-op"
+  | ["crypto.sha512chain", m, n] =>
+    match parseBytes? m, n.toNat? with
+    | some m, some n => toHexD (iter sha512 n m)
+    | _, _ => "bad-op"
+  | ["crypto.aesencchain", k, b, n] =>
+    match parseBytes? k, parseBytes? b, n.toNat? with
+    | some k, some b, some n =>
+      if k.length = 32 ∧ b.length = 16 then
+        let ek := aes256Expand k
+        toHex (iter (aes256EncryptBlock ek) n b)
+      else "bad-op"
+    | _, _, _ => "bad-op"
+  | ["crypto.aesdecchain", k, b, n] =>
+    match parseBytes? k, parseBytes? b, n.toNat? with
+    | some k, some b, some n =>
+      if k.length = 32 ∧ b.length = 16 then
+        let ek := aes256Expand k
+        toHex (iter (aes256DecryptBlock ek) n b)
+      else "bad-op"
+    | _, _, _ => "bad-op"
   | _ => "bad-op"
 
 end Driver.CRYPTO
